@@ -2,38 +2,67 @@
 
 (a) E5: every I/O step of the write path (and torn writes) as a crash point, for
     every initial state of the target file, on the real `_make_c_or_py_source`
-    with `open`/`os` injected into the cffi.recompiler namespace.
-(b) every iteration order of every `set` iterated during generation (the set
-    type visible in cffi.recompiler / cffi.model / cffi.cparser is replaced by a
-    subclass whose iteration order is a choice point), deviation-bounded.
+    with `open`/`os` injected into the cffi.recompiler namespace; entered directly
+    (make_c_source / make_py_source), through recompile() (module names with dots:
+    package directories), ffi.compile() (Python target) and ffi.emit_*_code();
+    for several C-source strings (CR LF, lone CR, empty, no final newline,
+    non-ASCII, longer than the I/O buffer); each crash followed by a recovery run
+    in "another process" (different pid); and once more with a rename() that does
+    not replace an existing file (the unlink + rename fallback).
+(b) every iteration order of every `set` iterated during generation, deviation
+    bounded: the name `set` rebound in cffi.recompiler / cffi.model / cffi.cparser,
+    and a second copy of the whole package whose set displays, comprehensions,
+    `set` / `frozenset` names are rewritten by an AST pass (_c23perm.py).
 (c) the corpus generated in fresh processes under several PYTHONHASHSEEDs, from
-    different working directories and target paths, twice each: identical bytes.
+    different working directories and target paths, twice each plus once more on
+    the same (meanwhile used) ffi object: identical bytes; and two non-ASCII
+    inputs under three locale / UTF-8-mode settings.
 """
 import hashlib
-import itertools
+import locale
 import os
+import shutil
 import subprocess
 import sys
 
 from .. import build, pool
 from ..build import InfraError
+from . import _c23perm
+from ._c23perm import PermSet, CH as _CH, Choices as _Choices
 
 ID = "C23"
 LEVEL = "fault_enumeration"
 META = dict(
     engine="E5-crash", level="fault_enumeration",
     technique="exhaustive crash-point and torn-write enumeration of the real write path with injected I/O, plus "
-              "exhaustive enumeration of set-iteration orders (deviation-bounded) and hash-seed/process variation",
-    text="For every corpus cdef x {C source, Python module} x every initial state of the target (absent, identical, "
-         "identical+1 byte, identical+more, proper prefix, different same-length, different, empty) "
-         "the write path runs to completion (idempotence: no write step, mtime kept, returns False iff identical) and "
-         "is then re-run once per I/O step with the process 'dying' instead of that step, and for writes after each "
-         "torn prefix; the target must hold the complete old or the complete new content.  Determinism: all iteration "
-         "orders of the sets used while generating (1 deviation quick, 2 thorough) and 8 (thorough 32) hash seeds in "
-         "fresh processes give identical bytes.",
+              "exhaustive enumeration of set-iteration orders (deviation-bounded) and hash-seed/process/locale variation",
+    text="For every corpus cdef (incl. embedding, dotted module name, packed, several cdef() calls) x {C source, "
+         "Python module} x every initial state of the target (absent, identical, identical+1 byte, identical+more, "
+         "proper prefix, different same-length, different, empty, identical but CR LF / one CR / one LF for CR LF / "
+         "BOM in front, symlink to a different / identical / missing file, stale temp file of the same pid; for "
+         "recompile()/compile() also 'directory absent') the write path runs to completion (idempotence: no write "
+         "step, mtime kept, returns False iff identical) and is then re-run once per I/O step with the process "
+         "'dying' instead of that step, and for writes after each torn prefix; the target must hold the complete old "
+         "or the complete new content; after every crash a recovery run under another pid must end with the new "
+         "content, the right return value and no temp file of its own.  The same for 8 C-source strings (CR LF, lone "
+         "CR, CR at the end, empty, no final newline, non-ASCII, 70000 characters) x 3 cdefs, and for the entry points "
+         "recompile() / ffi.compile() / ffi.emit_c_code() / ffi.emit_python_code() x module names mod_x, pkg.mod_x, "
+         "a.b.mod_x x 3 cdefs (quick tier: the first 12 corpus cdefs + the 5 builder entries, and 1 cdef for the C-source "
+         "and entry-point families).  The unlink+rename fallback is judged under an os.rename that refuses to replace an "
+         "existing file (Windows answer).  Determinism: all iteration orders of the sets used while generating (1 "
+         "deviation from all n! orders in the quick tier; thorough adds a 2nd deviation taken from the reduced family "
+         "reversal/rotations/adjacent transpositions for sets of more than 4 elements), both with the name `set` "
+         "rebound in the real modules (quick tier: reduced family only) and with an AST-rewritten copy of the package "
+         "(set displays, comprehensions, set/frozenset names, operator results, pop); 8 (thorough 32) hash seeds in "
+         "fresh processes, with the ffi used (typeof/sizeof/new of every declared type) between two generations; 3 "
+         "locale / UTF-8-mode settings for a non-ASCII C source and a non-ASCII embedding init code.",
     note="crash model = process death between or inside system calls (the code never fsyncs: power loss with unsynced "
-         "data is outside the statement's quantifier); the rename-failure fallback (unlink+rename) is not reachable "
-         "on POSIX with default environment answers and is reported as information only")
+         "data is outside the statement's quantifier); part (a) compares with the text encoded as open(..., 'w') of "
+         "the checking process encodes it (UTF-8 under bin/check), the encoding dependence itself is judged in (c); "
+         "the rename-failure fallback is reachable only where rename() does not replace (Windows): it is executed here "
+         "under an injected answer of os.rename; measured durations on the 16-core machine while it was loaded by other jobs (load average 65-90): quick "
+         "130 s wall / 230 s CPU, thorough 7.5 min wall / 15.5 min CPU; the work is spread evenly over the 16 workers "
+         "(no long pole), so an idle machine needs roughly CPU/16 plus three pool start-ups")
 
 CORPUS_FALLBACK = [
     ("prim", "int f(int); extern long g;\n#define K 42\nstatic const int SC = -3;"),
@@ -56,7 +85,13 @@ CORPUS_FALLBACK = [
              " float _Complex fc(double _Complex); size_t sz(ssize_t); int64_t i64(uint8_t);"),
     ("file", "int fput(FILE *, const char *); typedef struct { FILE *fp; int n; } fw_t;"),
     ("includes3", "@includes3"),
+    # generator branches no plain cdef reaches (audit gap 6)
+    ("embedding", "@embedding"),
+    ("dotted", "@dotted"),
+    ("packed", "@packed"),
+    ("twocdefs", "@twocdefs"),
 ]
+BUILDER_ENTRIES = ("includes3", "embedding", "dotted", "packed", "twocdefs")
 
 
 def corpus():
@@ -71,19 +106,38 @@ def corpus():
 
 PREAMBLE = "/* prelude */\n#include <stdio.h>\n"
 
+# values of the "C source" input (audit gap 1).  "std" is the one every corpus entry is generated with.
+PREAMBLES = {
+    "std": PREAMBLE,
+    "crlf": "/* w */\r\nint a;\r\n#include <stdio.h>\r\n",
+    "lone-cr": "int a;\rint b;\n",
+    "cr-at-end": "int a;\nint b;\r",
+    "empty": "",
+    "no-final-newline": "int x;",
+    "non-ascii": "/* \u00a9 caf\u00e9 \u4e2d */\nint c;\n",
+    "long-70000": "/* " + "x" * 70000 + " */\nint d;\n",
+}
+PREAMBLE_CDEFS = ("structs", "prim", "callbacks")     # the write path does not depend on the cdef:
+ENTRY_CDEFS = ("structs", "prim", "callbacks")        # the quick tier takes the first one only
+MODNAMES = {"@dotted": "a.b.mod_x"}
 
-def make_ffi(text, py):
-    import cffi
+
+def modname_of(text):
+    return MODNAMES.get(text, "mod_x")
+
+
+def make_ffi(text, py, cffi_mod=None):
+    if cffi_mod is None:
+        import cffi as cffi_mod
     if text.startswith("@"):
-        return BUILDERS[text[1:]](py)
-    ffi = cffi.FFI()
+        return BUILDERS[text[1:]](py, cffi_mod)
+    ffi = cffi_mod.FFI()
     ffi.cdef(text)
     return ffi
 
 
-def _build_includes3(py):
+def _build_includes3(py, cffi):
     """An FFI that include()s three others (each with its own module name)."""
-    import cffi
     parts = []
     for nm, decl in (("inc_zeta", "typedef struct za { int a; } za_t; int fz(za_t *);"),
                      ("inc_alpha", "enum ea { EA1, EA2 = 7 }; typedef enum ea ea_t;"),
@@ -99,11 +153,75 @@ def _build_includes3(py):
     return ffi
 
 
-BUILDERS = {"includes3": _build_includes3}
+EMBEDDING_INIT = (
+    "\n"
+    "    from mod_x import ffi\n"
+    "    S = \"a quote \\\" a backslash \\\\ and \u00e9 \u4e2d \\x7f\"\n"
+    "    L = \"" + "long line " * 60 + "\"\n"
+    "\n"
+    "    @ffi.def_extern()\n"
+    "    def emb_add(a, b):\n"
+    "        return a + b   # ??/ trigraph-like, tab\there\n")
+
+
+def _build_embedding(py, cffi):
+    ffi = cffi.FFI()
+    ffi.embedding_api("int emb_add(int, int); extern int emb_glob;")
+    ffi.cdef("int helper(int); typedef struct { int a; } emb_t;")
+    ffi.embedding_init_code(EMBEDDING_INIT)
+    return ffi
+
+
+def _build_dotted(py, cffi):
+    ffi = cffi.FFI()
+    ffi.cdef("int dotted_f(int); struct dd { int a; }; typedef struct dd dd_t;")
+    if not py:
+        ffi.cdef("extern \"Python\" int dotted_cb(int);")
+    return ffi
+
+
+def _build_packed(py, cffi):
+    ffi = cffi.FFI()
+    ffi.cdef("struct pk1 { char c; int i; long long q; };", packed=True)
+    ffi.cdef("struct pk2 { char c; long long q; short s; };", pack=2)
+    ffi.cdef("struct pk0 { char c; long long q; }; int upk(struct pk1 *, struct pk2 *, struct pk0 *);")
+    return ffi
+
+
+def _build_twocdefs(py, cffi):
+    ffi = cffi.FFI()
+    ffi.cdef("typedef int t1; int f1(t1);\n#define TWO 2\n")
+    ffi.cdef("struct s2 { t1 a; }; int f2(struct s2 *);")
+    ffi.cdef("int f1(t1);\n#define TWO 2\n", override=True)
+    ffi.cdef("enum e3 { E3A, E3B };")
+    return ffi
+
+
+BUILDERS = {"includes3": _build_includes3, "embedding": _build_embedding, "dotted": _build_dotted,
+            "packed": _build_packed, "twocdefs": _build_twocdefs}
 
 
 def c_stub_source(text):
     return PREAMBLE
+
+
+def touch_ffi(ffi):
+    """Use the ffi between two generations (audit gap 8): typeof / sizeof / new of every declared type.
+    Returns the number of successful operations; errors (partial types, opaque structs) are expected."""
+    n = 0
+    for key in sorted(ffi._parser._declarations):
+        kind, _, nm = key.partition(" ")
+        if kind not in ("typedef", "struct", "union", "enum"):
+            continue
+        cname = nm if kind == "typedef" else key
+        for op in (lambda: ffi.typeof(cname), lambda: ffi.sizeof(cname), lambda: ffi.new(cname + " *"),
+                   lambda: ffi.typeof(cname).fields, lambda: ffi.getctype(cname, "*")):
+            try:
+                op()
+                n += 1
+            except Exception:
+                pass
+    return n
 
 
 # ---------------------------------------------------------------------------------------
@@ -113,15 +231,22 @@ class Crash(BaseException):
     pass
 
 
+UNKNOWN = "n/a"          # entry points that do not return 'updated'
+RENAME_CFG = "rename-does-not-replace"
+
+
 class IOWorld(object):
     """Performs the real operations on a scratch directory, numbering every I/O step.
-    Step `crash_at` (optionally with a torn-write prefix length) 'kills the process'."""
+    Step `crash_at` (optionally with a torn-write prefix length) 'kills the process'.
+    rename_fails: os.rename raises OSError when the destination exists (the answer of a
+    platform whose rename does not replace).  pid_offset: os.getpid() of "another process"."""
 
-    def __init__(self, crash_at=None, torn=None, rename_fails=False):
+    def __init__(self, crash_at=None, torn=None, rename_fails=False, pid_offset=0):
         self.crash_at = crash_at
         self.torn = torn
         self.steps = []
         self.rename_fails = rename_fails
+        self.pid_offset = pid_offset
         self.write_sizes = {}
 
     def step(self, name, detail=None):
@@ -133,12 +258,10 @@ class IOWorld(object):
 
     # --- injected names ---
     def open(self, path, mode="r", *a, **kw):
-        self.step("open-" + mode, os.path.basename(path))
+        # extra arguments (newline='' of the comparing read) go to the real open() unchanged
+        self.step("open-" + mode, (os.path.basename(path), kw.get("newline", "default")))
         real = open(path, mode, *a, **kw)
         return _F(self, real, mode)
-
-    class _OS(object):
-        pass
 
     def os_proxy(self):
         w = self
@@ -148,11 +271,17 @@ class IOWorld(object):
             def __getattr__(self, name):
                 return getattr(real_os, name)
 
+            def getpid(self):
+                return real_os.getpid() + w.pid_offset
+
+            def makedirs(self, a, *args, **kw):
+                w.step("makedirs", os.path.basename(a))
+                return real_os.makedirs(a, *args, **kw)
+
             def rename(self, a, b):
                 w.step("rename", (os.path.basename(a), os.path.basename(b)))
-                if w.rename_fails and not getattr(w, "_renamed_once", False):
-                    w._renamed_once = True
-                    raise OSError("injected: rename fails")
+                if w.rename_fails and real_os.path.lexists(b):
+                    raise FileExistsError("injected: rename does not replace %r" % os.path.basename(b))
                 return real_os.rename(a, b)
 
             def replace(self, a, b):
@@ -230,13 +359,21 @@ class _F(object):
 # (open(..., 'r').read() is only guarded by `except OSError`).  The old content stays complete, so
 # the statement (old-or-new at every crash point) is not broken; that state is therefore not judged.
 INITIAL = ["absent", "identical", "identical+1", "identical+many", "prefix", "same-length-different",
-           "different", "empty"]
+           "different", "empty",
+           # audit gap 1: differs from the new text only in newline bytes / a byte-order mark
+           "identical-crlf", "identical-one-cr", "identical-lf-for-crlf", "bom+identical",
+           # audit gap 4: the target is a symbolic link; a temp file with this pid's name exists already
+           "symlink-different", "symlink-identical", "dangling-symlink", "stale-temp-file"]
+NODIR = "absent-nodir"            # recompile()/compile(): the directory of the target does not exist yet
+IDENTICAL_LIKE = ("identical", "symlink-identical")
+STALE_JUNK = b"/* stale temp of a crashed run */\n" * 4
 
 
 def initial_bytes(kind, new):
-    if kind == "absent":
+    """Content of the target as a reader sees it (through a symlink) before the run; None = nothing there."""
+    if kind in ("absent", NODIR, "dangling-symlink"):
         return None
-    if kind == "identical":
+    if kind in IDENTICAL_LIKE:
         return new
     if kind == "identical+1":
         return new + b"\n"
@@ -246,24 +383,67 @@ def initial_bytes(kind, new):
         return new[:len(new) // 2]
     if kind == "same-length-different":
         return new[:-2] + (b"Z\n" if new[-2:] != b"Z\n" else b"Y\n")
-    if kind == "different":
+    if kind in ("different", "symlink-different", "stale-temp-file"):
         return b"/* old content */\nint old;\n"
     if kind == "empty":
         return b""
+    if kind == "identical-crlf":
+        return new.replace(b"\n", b"\r\n")
+    if kind == "identical-one-cr":
+        k = new.find(b"\n", len(new) // 2)
+        if k < 0:
+            k = new.find(b"\n")
+        if k < 0:
+            return new                                # (never: generated text has newlines) -> state skipped
+        return new[:k] + b"\r" + new[k + 1:]
+    if kind == "identical-lf-for-crlf":
+        return new.replace(b"\r\n", b"\n", 1)         # == new when there is no CR LF: the state is skipped
+    if kind == "bom+identical":
+        return b"\xef\xbb\xbf" + new
     if kind == "undecodable":
         return b"\xff\xfe\x80 old binary junk \xc3\x28\n"
     raise ValueError(kind)
 
 
-def _run_write(ffi, py, target, world):
+def _target_relpath(spec):
+    py = spec["py"]
+    parts = spec["modname"].split(".")
+    ext = ".py" if py else spec.get("ext", ".c")
+    if spec["entry"] in ("recompile", "compile"):
+        return os.path.join(*(parts[:-1] + [parts[-1] + ext]))
+    return parts[-1] + ext
+
+
+def _run_entry(spec, ffi, d, target, world):
     import cffi.recompiler as R
+    py = spec["py"]
+    pre = None if py else PREAMBLES[spec["preamble"]]
+    modname = spec["modname"]
+    entry = spec["entry"]
     saved = (R.__dict__.get("open"), R.os)
     R.open = world.open
     R.os = world.os_proxy()
     try:
-        if py:
-            return R.make_py_source(ffi, "mod_x", target)
-        return R.make_c_source(ffi, "mod_x", PREAMBLE, target)
+        if entry == "direct":
+            if py:
+                return R.make_py_source(ffi, modname, target)
+            return R.make_c_source(ffi, modname, pre, target)
+        if entry == "recompile":
+            r = R.recompile(ffi, modname, pre, tmpdir=d, call_c_compiler=False, uses_ffiplatform=False,
+                            compiler_verbose=0, source_extension=spec.get("ext", ".c"))
+            return r[1]
+        if entry == "compile":
+            r = ffi.compile(tmpdir=d)
+            if r != target:
+                raise InfraError("compile() returned %r, the harness expects %r" % (r, target))
+            return UNKNOWN
+        if entry == "emit":
+            import contextlib
+            import io
+            with contextlib.redirect_stdout(io.StringIO()):       # "generating ..." / "(already up-to-date)"
+                (ffi.emit_python_code if py else ffi.emit_c_code)(target)
+            return UNKNOWN
+        raise InfraError("unknown entry %r" % (entry,))
     finally:
         if saved[0] is None:
             del R.open
@@ -272,42 +452,131 @@ def _run_write(ffi, py, target, world):
         R.os = saved[1]
 
 
-def _reference_text(ffi, py):
+def _encode_like_open(text):
+    """The bytes open(path, 'w').write(text) of this process produces."""
+    if os.linesep != "\n":
+        text = text.replace("\n", os.linesep)
+    return text.encode(locale.getpreferredencoding(False))
+
+
+def _reference_text(ffi, spec):
     import io
     import cffi.recompiler as R
     f = io.StringIO()
-    if py:
-        R.make_py_source(ffi, "mod_x", f)
+    if spec["py"]:
+        R.make_py_source(ffi, spec["modname"], f)
     else:
-        R.make_c_source(ffi, "mod_x", PREAMBLE, f)
-    return f.getvalue().encode("utf-8")
+        R.make_c_source(ffi, spec["modname"], PREAMBLES[spec["preamble"]], f)
+    return f.getvalue()
 
 
-def crash_work(item):
-    """All initial states x all crash points for one (corpus entry, target kind)."""
-    name, text, py = item
-    ffi = make_ffi(text, py)
+def _spec(family, name, text, py, preamble="std", entry="direct", modname=None, ext=".c"):
+    return {"family": family, "name": name, "text": text, "py": bool(py), "preamble": preamble, "entry": entry,
+            "modname": modname or modname_of(text), "ext": ext}
+
+
+def spec_id(spec):
+    return "%s-%s-%s-%s-%s-%s-%s" % (spec["family"], spec["name"], "py" if spec["py"] else "c", spec["preamble"],
+                                     spec["entry"], spec["modname"].replace(".", "_"), spec["ext"].strip("."))
+
+
+def write_specs(cps, quick):
+    texts = dict(cps)
+    specs = []
+    sel = list(cps)
+    if quick:
+        sel = [(n, t) for i, (n, t) in enumerate(cps) if i < 12 or n in BUILDER_ENTRIES]
+    for n, t in sel:
+        for py in (False, True):
+            specs.append(_spec("corpus", n, t, py))
+    for pk in PREAMBLES:
+        if pk == "std":
+            continue
+        for n in PREAMBLE_CDEFS[:1] if quick else PREAMBLE_CDEFS:
+            specs.append(_spec("preamble", n, texts[n], False, preamble=pk))
+    for n in ENTRY_CDEFS[:1] if quick else ENTRY_CDEFS:
+        for modname in ("mod_x", "pkg.mod_x", "a.b.mod_x"):
+            ext = ".cpp" if modname == "pkg.mod_x" else ".c"
+            specs.append(_spec("entry", n, texts[n], False, entry="recompile", modname=modname, ext=ext))
+            specs.append(_spec("entry", n, texts[n], True, entry="recompile", modname=modname))
+            specs.append(_spec("entry", n, texts[n], True, entry="compile", modname=modname))
+        specs.append(_spec("entry", n, texts[n], False, entry="emit", modname="mod_x"))
+        specs.append(_spec("entry", n, texts[n], True, entry="emit", modname="mod_x"))
+    return specs
+
+
+def _torn_lengths(n):
+    cand = {0, 1, n // 2, n - 1, 8192, ((n - 1) // 8192) * 8192}      # incl. the io buffer boundaries of long texts
+    return sorted(t for t in cand if 0 <= t < n)
+
+
+def crash_work(spec, only_states=None):
+    """All initial states x all crash points (+ recovery, + rename fallback) for one spec."""
+    py = spec["py"]
+    ffi = make_ffi(spec["text"], py)
+    item = (spec["name"], py)
     try:
-        new = _reference_text(ffi, py)
+        text = _reference_text(ffi, spec)
     except Exception as e:
         # this cdef cannot be generated for this target kind at all (e.g. '...' needs a compiler)
-        return {"item": (name, py), "excluded": "%s" % type(e).__name__}
-    d = os.path.join(build.scratch(), "c23-%s-%d" % (name, py))
-    os.makedirs(d, exist_ok=True)
-    target = os.path.join(d, "mod_x.py" if py else "mod_x.c")
+        return {"item": item, "excluded": "%s" % type(e).__name__}
+    try:
+        new = _encode_like_open(text)
+    except UnicodeEncodeError:
+        return {"item": item, "excluded": "not-encodable-in-this-locale"}
+    if spec["entry"] in ("compile", "emit"):
+        if py:
+            ffi.set_source(spec["modname"], None)
+        else:
+            ffi.set_source(spec["modname"], PREAMBLES[spec["preamble"]], source_extension=spec["ext"])
+    d = os.path.join(build.scratch(), "c23-" + spec_id(spec))
+    aux = d + "-aux"
+    rel = _target_relpath(spec)
+    target = os.path.join(d, rel)
+    tdir = os.path.dirname(target)
+    store = os.path.join(aux, "store.dat")
+    os.makedirs(aux, exist_ok=True)
+    own_tmp = rel + ".~%d" % os.getpid()
     bad = []
-    nruns = 0
-    ncrash = 0
+    cnt = {"runs": 0, "crash": 0, "recovery": 0, "fallback_crash": 0, "skipped_states": 0}
+    per_state = {}
     steps_seen = set()
+    newline_args = set()
+    fallback_steps = None
+    nsteps_max = 0
+    states = list(INITIAL) + ([NODIR] if spec["entry"] in ("recompile", "compile") else [])
+    if only_states is not None:
+        states = [s for s in states if s in only_states]
 
     def reset(kind):
-        for fn in os.listdir(d):
-            os.unlink(os.path.join(d, fn))
+        # (rmdir / unlink are the expensive calls here: nothing is removed that is overwritten anyway)
+        if kind == NODIR:
+            if os.path.lexists(d):
+                shutil.rmtree(d)
+            return None
+        if not os.path.isdir(tdir):
+            os.makedirs(tdir)
         old = initial_bytes(kind, new)
-        if old is not None:
+        plain = old is not None and not kind.startswith("symlink-")
+        for fn in os.listdir(tdir):
+            p = os.path.join(tdir, fn)
+            if p == target and plain and not os.path.islink(p):
+                continue
+            os.unlink(p)
+        if kind.startswith("symlink-"):
+            with open(store, "wb") as f:
+                f.write(old)
+            os.utime(store, (1000000000, 1000000000))
+            os.symlink(store, target)
+        elif kind == "dangling-symlink":
+            os.symlink(os.path.join(aux, "nothing-here"), target)
+        elif old is not None:
             with open(target, "wb") as f:
                 f.write(old)
             os.utime(target, (1000000000, 1000000000))
+        if kind == "stale-temp-file":
+            with open(os.path.join(d, own_tmp), "wb") as f:
+                f.write(STALE_JUNK)
         return old
 
     def content():
@@ -317,46 +586,103 @@ def crash_work(item):
         except FileNotFoundError:
             return None
 
-    for kind in INITIAL:
+    def leftovers():
+        out = []
+        for dp, dns, fns in os.walk(d):
+            for fn in fns:
+                p = os.path.relpath(os.path.join(dp, fn), d)
+                if p != rel:
+                    out.append(p)
+        return sorted(out)
+
+    def run(world):
+        cnt["runs"] += 1
+        return _run_entry(spec, ffi, d, target, world)
+
+    def crash_plan(kind, k, torn, cfg, step_name):
+        """One crash run and the recovery run after it."""
+        old = reset(kind)
+        wc = IOWorld(crash_at=k, torn=torn, rename_fails=cfg is not None)
+        extra = {"config": cfg} if cfg else {}
+        try:
+            run(wc)
+            bad.append(("crash-plan-not-reached", dict(extra, initial=kind, step=k)))
+            return
+        except Crash:
+            pass
+        except Exception as e:
+            bad.append(("crash-run-raises", dict(extra, initial=kind, step=k, error="%s: %s" % (type(e).__name__, e))))
+            return
+        got = content()
+        if not (got == old or got == new):
+            what = "absent" if got is None else ("truncated/partial (%d bytes)" % len(got))
+            bad.append(("torn-target", dict(extra, initial=kind, step=k, step_name=step_name, torn=torn,
+                                            target_is=what)))
+        # recovery: the next process (another pid) regenerates without fault
+        cnt["recovery"] += 1
+        wr = IOWorld(pid_offset=1, rename_fails=cfg is not None)
+        try:
+            up = run(wr)
+        except Exception as e:
+            bad.append(("recovery-raises", dict(extra, initial=kind, step=k, torn=torn,
+                                                error="%s: %s" % (type(e).__name__, e))))
+            return
+        got2 = content()
+        if got2 != new:
+            bad.append(("recovery-content-wrong", dict(extra, initial=kind, step=k, torn=torn)))
+        if up is not UNKNOWN and up is not (got != new):
+            bad.append(("recovery-return-wrong", dict(extra, initial=kind, step=k, torn=torn, returned=repr(up),
+                                                      target_was_new=(got == new))))
+        left = [p for p in leftovers() if p != own_tmp]           # the dead process's temp file may stay
+        if left:
+            bad.append(("recovery-temp-left", dict(extra, initial=kind, step=k, torn=torn, files=left)))
+
+    for kind in states:
+        if kind not in IDENTICAL_LIKE and kind != NODIR and initial_bytes(kind, new) == new:
+            cnt["skipped_states"] += 1           # e.g. 'identical-lf-for-crlf' for a text without CR LF
+            continue
         old = reset(kind)
         # --- full run (no crash)
         w = IOWorld()
-        nruns += 1
         try:
-            updated = _run_write(ffi, py, target, w)
+            updated = run(w)
             exc = None
         except Exception as e:
             updated, exc = None, e
         if exc is not None:
             bad.append(("regenerate-raises", {"initial": kind, "error": "%s: %s" % (type(exc).__name__, exc)}))
             continue
+        per_state[kind] = per_state.get(kind, 0) + 1
         got = content()
         names = [s[0] for s in w.steps]
         steps_seen.update(names)
+        newline_args.update(repr(s[1][1]) for s in w.steps if s[0] == "open-r")
         if got != new:
             bad.append(("final-content-wrong", {"initial": kind}))
-        if kind == "identical":
+        if kind in IDENTICAL_LIKE:
             wrote = [n for n in names if n.startswith("open-w") or n in ("write", "flush", "rename", "replace", "unlink", "remove")]
-            if updated is not False:
+            if updated is not UNKNOWN and updated is not False:
                 bad.append(("identical-reported-updated", {"initial": kind, "returned": repr(updated)}))
             if wrote:
                 bad.append(("identical-but-written", {"initial": kind, "steps": names}))
             if os.stat(target).st_mtime != 1000000000:
                 bad.append(("identical-mtime-changed", {"initial": kind}))
         else:
-            if updated is not True:
+            if updated is not UNKNOWN and updated is not True:
                 bad.append(("changed-reported-not-updated", {"initial": kind, "returned": repr(updated)}))
-        leftovers = [fn for fn in os.listdir(d) if os.path.join(d, fn) != target]
-        if leftovers:
-            bad.append(("temp-left-after-success", {"initial": kind, "files": leftovers}))
+        left = leftovers()
+        if left:
+            bad.append(("temp-left-after-success", {"initial": kind, "files": left}))
         nsteps = len(w.steps)
+        nsteps_max = max(nsteps_max, nsteps)
         # --- a second run right after must be a no-op
         w2 = IOWorld()
-        nruns += 1
         try:
-            up2 = _run_write(ffi, py, target, w2)
-            if up2 is not False or any(n in ("write", "rename") for n, _ in w2.steps):
+            up2 = run(w2)
+            if (up2 is not UNKNOWN and up2 is not False) or any(n in ("write", "rename") for n, _ in w2.steps):
                 bad.append(("second-run-not-noop", {"initial": kind, "returned": repr(up2)}))
+            if content() != new:
+                bad.append(("second-run-content-wrong", {"initial": kind}))
         except Exception as e:
             bad.append(("second-run-raises", {"initial": kind, "error": "%s: %s" % (type(e).__name__, e)}))
         # --- crash instead of every step, and torn writes
@@ -364,93 +690,74 @@ def crash_work(item):
         for k in range(nsteps):
             plans.append((k, None))
             if w.steps[k][0] in ("flush", "close") and w.write_sizes.get(k):
-                n = w.write_sizes[k]
-                for t in sorted({0, 1, n // 2, n - 1}):
-                    if 0 <= t < n:
-                        plans.append((k, t))
+                for t in _torn_lengths(w.write_sizes[k]):
+                    plans.append((k, t))
         for k, torn in plans:
-            old = reset(kind)
-            wc = IOWorld(crash_at=k, torn=torn)
-            ncrash += 1
-            try:
-                _run_write(ffi, py, target, wc)
-                bad.append(("crash-plan-not-reached", {"initial": kind, "step": k}))
-                continue
-            except Crash:
-                pass
-            except Exception as e:
-                bad.append(("crash-run-raises", {"initial": kind, "step": k, "error": "%s: %s" % (type(e).__name__, e)}))
-                continue
-            got = content()
-            if not (got == old or got == new):
-                what = "absent" if got is None else ("truncated/partial (%d bytes)" % len(got))
-                bad.append(("torn-target", {"initial": kind, "step": k, "step_name": w.steps[k][0], "torn": torn,
-                                            "target_is": what}))
-    # information only: rename fails once (Windows-like answer)
-    info = None
-    old = reset("different")
-    wr = IOWorld(rename_fails=True)
-    try:
-        _run_write(ffi, py, target, wr)
-        info = [n for n, _ in wr.steps]
-    except Exception as e:
-        info = "raises %s" % type(e).__name__
-    return {"item": (name, py), "runs": nruns, "crash_runs": ncrash, "steps": sorted(steps_seen), "bad": bad,
-            "fallback_steps": info, "nsteps_max": nsteps}
+            cnt["crash"] += 1
+            crash_plan(kind, k, torn, None, w.steps[k][0])
+        # --- audit gap 7: the same under a rename() that does not replace an existing target
+        if kind in IDENTICAL_LIKE:
+            continue
+        reset(kind)
+        wf = IOWorld(rename_fails=True)
+        try:
+            upf = run(wf)
+        except Exception as e:
+            bad.append(("regenerate-raises", {"initial": kind, "config": RENAME_CFG,
+                                              "error": "%s: %s" % (type(e).__name__, e)}))
+            continue
+        fnames = [n for n, _ in wf.steps]
+        steps_seen.update(fnames)
+        if content() != new:
+            bad.append(("final-content-wrong", {"initial": kind, "config": RENAME_CFG}))
+        if upf is not UNKNOWN and upf is not True:
+            bad.append(("changed-reported-not-updated", {"initial": kind, "config": RENAME_CFG, "returned": repr(upf)}))
+        if leftovers():
+            bad.append(("temp-left-after-success", {"initial": kind, "config": RENAME_CFG, "files": leftovers()}))
+        if "unlink" in fnames:
+            fallback_steps = fnames
+            first = fnames.index("rename")
+            for k in range(first + 1, len(fnames)):          # the steps up to the first rename are the plans above
+                cnt["fallback_crash"] += 1
+                crash_plan(kind, k, None, RENAME_CFG, fnames[k])
+    for p in (d, aux):
+        if os.path.lexists(p):
+            shutil.rmtree(p)
+    return {"item": item, "runs": cnt["runs"], "crash_runs": cnt["crash"], "recovery_runs": cnt["recovery"],
+            "fallback_crash_runs": cnt["fallback_crash"], "skipped_states": cnt["skipped_states"],
+            "per_state": per_state, "steps": sorted(steps_seen), "bad": bad, "newline_args": sorted(newline_args),
+            "fallback_steps": fallback_steps, "nsteps_max": nsteps_max, "new_len": len(new)}
 
 
 # ---------------------------------------------------------------------------------------
 # (b) set iteration orders
 
-class _Choices(object):
-    def __init__(self, prefix):
-        self.prefix = list(prefix)
-        self.taken = []      # (n_alternatives, chosen)
-
-    def choose(self, n):
-        k = len(self.taken)
-        c = self.prefix[k] if k < len(self.prefix) else 0
-        if c >= n:
-            raise InfraError("set-order replay diverged")
-        self.taken.append((n, c))
-        return c
-
-
-_CH = [None]
-
-
-class PermSet(set):
-    """A set whose iteration order is a choice point (all permutations)."""
-
-    def __iter__(self):
-        items = sorted(set.__iter__(self), key=repr)
-        ch = _CH[0]
-        if ch is None or len(items) < 2:
-            return iter(items)
-        perms = list(itertools.permutations(items))
-        return iter(perms[ch.choose(len(perms))])
-
-
-def _gen_both(text):
-    """Generate C and Python module text with PermSet installed; returns (c_text, py_text)."""
+def _gen_both(text, mode):
+    """Generate C and Python module text; mode 'plain' (uninstrumented), 'rebind' (the name `set` rebound in
+    three real modules) or 'ast' (instrumented copy of the package).  Returns (c_text, py_text)."""
     import io
-    import cffi
-    import cffi.recompiler as R
-    import cffi.model as M
-    import cffi.cparser as P
-    mods = (R, M, P)
+    if mode == "ast":
+        pkg = _c23perm.alias_package()
+        R = pkg.recompiler
+        mods = ()
+    else:
+        import cffi as pkg
+        import cffi.recompiler as R
+        import cffi.model as M
+        import cffi.cparser as P
+        mods = (R, M, P) if mode == "rebind" else ()
     for m in mods:
         m.set = PermSet
     try:
         out = []
         for py in (False, True):
-            ffi = make_ffi(text, py)
             f = io.StringIO()
             try:
+                ffi = make_ffi(text, py, pkg)
                 if py:
-                    R.make_py_source(ffi, "mod_x", f)
+                    R.make_py_source(ffi, modname_of(text), f)
                 else:
-                    R.make_c_source(ffi, "mod_x", PREAMBLE, f)
+                    R.make_c_source(ffi, modname_of(text), PREAMBLE, f)
             except InfraError:
                 raise
             except Exception as e:
@@ -467,39 +774,64 @@ def _gen_both(text):
 
 
 def order_work(item):
-    name, text, bound = item
+    """item = (name, text, bound, mode, shard, nshards, first_full).  Deviation-bounded exploration of the set
+    orders; the subtrees below the root are dealt out to `nshards` workers (the root itself is counted by
+    shard 0).  The first deviation ranges over all n! orders of the set if first_full, further ones (and the
+    first one otherwise) over the reduced family of _c23perm.orders()."""
+    name, text, bound, mode, shard, nshards, first_full = item
     _CH[0] = None
-    ref = _gen_both(text)
+    ref = _gen_both(text, "plain")
     stack = [[]]
     nexec = 0
     npoints = 0
+    root_alts = 0
     bad = []
     while stack:
         prefix = stack.pop()
+        is_root = not prefix
         ch = _Choices(prefix)
         _CH[0] = ch
         try:
-            got = _gen_both(text)
+            got = _gen_both(text, mode)
         finally:
             _CH[0] = None
-        nexec += 1
-        npoints = max(npoints, len(ch.taken))
-        if got != ref:
-            bad.append(("set-order-changes-output", {"cdef": name, "choices": [c for _, c in ch.taken]}))
-            if len(bad) > 2:
-                break
-        devs = sum(1 for _, c in ch.taken if c)
+        if not is_root or shard == 0:
+            nexec += 1
+            npoints = max(npoints, len(ch.taken))
+            if got != ref:
+                bad.append(("set-order-changes-output", {"cdef": name, "mode": mode, "choices": [c for _, c, _ in ch.taken]}))
+                if len(bad) > 2:
+                    break
+        devs = sum(1 for _, c, _ in ch.taken if c)
         for i in range(len(prefix), len(ch.taken)):
             if devs + 1 > bound:
                 break
-            n = ch.taken[i][0]
-            for alt in range(1, n):
-                stack.append([c for _, c in ch.taken[:i]] + [alt])
-    return {"item": name, "executions": nexec, "choice_points": npoints, "bad": bad}
+            n, _, nred = ch.taken[i]
+            for alt in range(1, n if (devs == 0 and first_full) else nred):
+                if is_root:
+                    root_alts += 1
+                    if root_alts % nshards != shard:
+                        continue
+                stack.append([c for _, c, _ in ch.taken[:i]] + [alt])
+    return {"item": name, "mode": mode, "executions": nexec, "choice_points": npoints, "bad": bad,
+            "root_alternatives": root_alts}
+
+
+def order_probe(item):
+    """Number of alternatives below the root (to decide the number of shards)."""
+    name, text, mode, first_full = item
+    ch = _Choices([])
+    _CH[0] = ch
+    try:
+        _gen_both(text, mode)
+    finally:
+        _CH[0] = None
+    return {"alts": sum((n if first_full else nred) - 1 for n, _, nred in ch.taken), "points": len(ch.taken),
+            "rewritten": dict(_c23perm.REWRITTEN) if mode == "ast" else None}
 
 
 # ---------------------------------------------------------------------------------------
-# (c) processes / hash seeds / paths
+# (c) processes / hash seeds / paths / locales
 
 _CHILD = r'''
 import sys, os, hashlib, io
@@ -509,6 +841,7 @@ import cffi
 out = []
 variant = int(sys.argv[1])
 base = sys.argv[2]
+touched = 0
 for name, text in c23.corpus():
     for py in (False, True):
         d = os.path.join(base, ("x" * (1 + variant %% 3)), "dir%%d" %% variant)
@@ -517,7 +850,7 @@ for name, text in c23.corpus():
         res = []
         for rep in range(2):
             ffi = c23.make_ffi(text, py)
-            ffi.set_source("mod_x", None if py else c23.PREAMBLE)
+            ffi.set_source(c23.modname_of(text), None if py else c23.PREAMBLE)
             fn = os.path.join(d, "out_%%s_%%d_%%d.%%s" %% (name, py, rep, "py" if py else "c"))
             try:
                 (ffi.emit_python_code if py else ffi.emit_c_code)(fn)
@@ -526,13 +859,15 @@ for name, text in c23.corpus():
                 continue
             with open(fn, "rb") as f:
                 res.append(f.read())
-            # same ffi object, second call
+            # same ffi object, second call, after the ffi has been used
+            touched += c23.touch_ffi(ffi)
             fn2 = fn + ".again"
             (ffi.emit_python_code if py else ffi.emit_c_code)(fn2)
             with open(fn2, "rb") as f:
                 res.append(f.read())
         assert len(set(res)) >= 1
         out.append("R|%%s|%%d|%%s|%%d" %% (name, py, hashlib.sha256(res[0]).hexdigest(), len(set(res))))
+out.append("T|%%d" %% touched)
 sys.stdout.write("\n".join(out) + "\n")
 '''
 
@@ -551,54 +886,205 @@ def seed_work(item):
     return {"seed": seed, "variant": variant, "lines": p.stdout.splitlines()}
 
 
+# audit gap 2: the locale / UTF-8 mode is a configuration; the two inputs with non-ASCII characters
+LOCALE_VARS = ("LC_ALL", "LC_CTYPE", "LANG", "PYTHONUTF8", "PYTHONCOERCECLOCALE", "PYTHONIOENCODING")
+LOCALE_ENVS = {
+    "inherited": None,
+    "ascii-locale": {"LC_ALL": "C", "LANG": "C", "PYTHONCOERCECLOCALE": "0", "PYTHONUTF8": "0"},
+    "utf8-mode": {"PYTHONUTF8": "1"},
+}
+LOCALE_CASES = [("nonascii-c-source", "int f(int);", "non-ascii"), ("nonascii-embedding-init", "@embedding", "std")]
+
+_CHILD_LOCALE = r'''
+import sys, os, hashlib, shutil
+sys.path.insert(0, %(verif)r)
+from vlib.props import c23
+base = sys.argv[1]
+out = []
+for case, text, pk in c23.LOCALE_CASES:
+    ref = os.path.join(base, "ref-" + case + ".c")
+    for phase in ("absent", "again", "target-from-utf8-process"):
+        d = os.path.join(base, case + "-" + ("x" if phase == "target-from-utf8-process" else "a"))
+        os.makedirs(d, exist_ok=True)
+        fn = os.path.join(d, "mod_x.c")
+        if phase == "target-from-utf8-process":
+            shutil.copyfile(ref, fn)
+        if phase != "absent" and os.path.exists(fn):
+            os.utime(fn, (1000000000, 1000000000))
+        ffi = c23.make_ffi(text, False)
+        ffi.set_source("mod_x", c23.PREAMBLES[pk])
+        try:
+            ffi.emit_c_code(fn)
+            outcome = "ok"
+        except Exception as e:
+            outcome = type(e).__name__
+        try:
+            with open(fn, "rb") as f:
+                digest = hashlib.sha256(f.read()).hexdigest()
+            kept = int(os.stat(fn).st_mtime == 1000000000)
+        except OSError:
+            digest, kept = "-", 0
+        left = sorted(x for x in os.listdir(d) if x != "mod_x.c")
+        out.append("L|%%s|%%s|%%s|%%s|%%d|%%d" %% (case, phase, outcome, digest, kept, len(left)))
+sys.stdout.write("\n".join(out) + "\n")
+'''
+
+
+def locale_work(envname):
+    import io
+    import cffi.recompiler as R
+    base = os.path.join(build.scratch(), "c23-locale-%s" % envname)
+    os.makedirs(base, exist_ok=True)
+    refs = {}
+    for case, text, pk in LOCALE_CASES:
+        f = io.StringIO()
+        R.make_c_source(make_ffi(text, False), "mod_x", PREAMBLES[pk], f)
+        data = f.getvalue().encode("utf-8")
+        with open(os.path.join(base, "ref-" + case + ".c"), "wb") as g:
+            g.write(data)
+        refs[case] = hashlib.sha256(data).hexdigest()
+    env = dict(os.environ)
+    if LOCALE_ENVS[envname] is not None:
+        for k in LOCALE_VARS:
+            env.pop(k, None)
+        env.update(LOCALE_ENVS[envname])
+    code = _CHILD_LOCALE % {"verif": build.VERIF}
+    p = subprocess.run([build.PY, "-c", code, base], env=env, stdout=subprocess.PIPE, stderr=subprocess.PIPE)
+    if p.returncode != 0:
+        raise InfraError("locale child failed: %s" % p.stderr[-2000:].decode("utf-8", "replace"))
+    rows = []
+    for line in p.stdout.decode("ascii").splitlines():
+        if line.startswith("L|"):
+            _, case, phase, outcome, digest, kept, nleft = line.split("|")
+            rows.append({"case": case, "phase": phase, "outcome": outcome, "digest": digest, "mtime_kept": int(kept),
+                         "files_left": int(nleft), "utf8_digest": refs[case]})
+    shutil.rmtree(base, ignore_errors=True)
+    return {"env": envname, "rows": rows}
+
+
+def proc_work(item):
+    return seed_work(item[1]) if item[0] == "seed" else locale_work(item[1])
+
+
+def judge_locale(results):
+    """results: list of locale_work() results.  Returns [(sig, info)] for every configuration dependence:
+    a generation must succeed and give the bytes every other configuration gives; regenerating into the
+    file a UTF-8 process wrote (and into its own output) must succeed and leave it untouched."""
+    out = []
+    by_case = {}
+    for r in results:
+        for row in r["rows"]:
+            by_case.setdefault((row["case"], row["phase"]), []).append((r["env"], row))
+    for (case, phase), lst in sorted(by_case.items()):
+        digests = sorted(set(row["digest"] for _, row in lst if row["outcome"] == "ok"))
+        for env, row in lst:
+            if row["outcome"] != "ok":
+                out.append(({"kind": "locale-dependent-generation", "outcome": "raises-" + row["outcome"], "env": env},
+                            {"case": case, "phase": phase, "env": env, "row": row}))
+            elif phase != "absent" and not row["mtime_kept"]:
+                out.append(({"kind": "locale-dependent-generation", "outcome": "identical-target-rewritten", "env": env},
+                            {"case": case, "phase": phase, "env": env, "row": row}))
+        if len(digests) > 1:
+            out.append(({"kind": "locale-dependent-generation", "outcome": "bytes-differ"},
+                        {"case": case, "phase": phase, "rows": [[e, r] for e, r in lst]}))
+    return out
+
+
 # ---------------------------------------------------------------------------------------
+
+def _pool(func, items):
+    for item, r in pool.pmap(func, [[it] for it in items], item_timeout=3600):
+        if isinstance(r, (pool.WorkerError, pool.Crash)):
+            raise InfraError(repr(r))
+        yield item, r
+
 
 def run(ctx):
     cps = corpus()
     ctx.log("corpus: %d cdefs" % len(cps))
     # (a)
-    items = [(n, t, py) for n, t in cps for py in (False, True)]
-    if ctx.quick:
-        items = [it for i, it in enumerate(items) if i < 24]
-    crash_runs = full_runs = 0
+    specs = write_specs(cps, ctx.quick)
+    tot = {"runs": 0, "crash": 0, "recovery": 0, "fallback": 0}
     steps_all = set()
+    newline_args = set()
     fallback = None
-    for item, r in pool.pmap(crash_work, [[it] for it in items], item_timeout=3600):
-        if isinstance(r, (pool.WorkerError, pool.Crash)):
-            raise InfraError(repr(r))
+    longest = 0
+    for spec, r in _pool(crash_work, specs):
         if "excluded" in r:
-            ctx.count("excluded_target_not_generatable")
+            ctx.count("excluded_target_not_generatable[%s]" % r["excluded"])
             continue
-        crash_runs += r["crash_runs"]
-        full_runs += r["runs"]
+        tot["runs"] += r["runs"]
+        tot["crash"] += r["crash_runs"]
+        tot["recovery"] += r["recovery_runs"]
+        tot["fallback"] += r["fallback_crash_runs"]
         steps_all.update(r["steps"])
-        fallback = r["fallback_steps"]
+        newline_args.update(r["newline_args"])
+        fallback = r["fallback_steps"] or fallback
+        longest = max(longest, r["new_len"])
+        ctx.count("write_specs[family=%s]" % spec["family"])
+        ctx.count("crash_points[family=%s]" % spec["family"], r["crash_runs"])
+        if spec["family"] == "preamble":
+            ctx.count("crash_points[c_source=%s]" % spec["preamble"], r["crash_runs"])
+        if spec["family"] == "entry":
+            ctx.count("crash_points[entry=%s,%s]" % (spec["entry"], spec["modname"]), r["crash_runs"])
         ctx.count("crash_points", r["crash_runs"])
-        ctx.sample({"cdef": item[0], "target": "py" if item[2] else "c", "io_steps": r["steps"],
-                    "crash_runs": r["crash_runs"]})
+        ctx.count("recovery_runs", r["recovery_runs"])
+        ctx.count("rename_fallback_crash_points", r["fallback_crash_runs"])
+        ctx.count("initial_states_skipped_equal_to_new", r["skipped_states"])
+        for kind, n in r["per_state"].items():
+            ctx.count("complete_runs[initial=%s]" % kind, n)
+        ctx.sample({"spec": spec_id(spec), "io_steps": r["steps"], "crash_runs": r["crash_runs"],
+                    "recovery_runs": r["recovery_runs"], "bytes": r["new_len"]})
         for kind, info in r["bad"]:
-            ctx.violation({"kind": kind, "initial": info.get("initial")},
-                          {"part": "crash", "item": list(item), "kind": kind, "info": info})
+            if info.get("config"):
+                # one root cause (the unlink+rename fallback): one signature, whatever the initial state
+                sig = {"kind": kind, "config": info["config"]}
+            else:
+                sig = {"kind": kind, "initial": info.get("initial")}
+                if spec["entry"] != "direct":
+                    sig["entry"] = spec["entry"]
+            ctx.violation(sig, {"part": "crash", "spec": spec, "kind": kind, "info": info})
+    ctx.log("(a) done: %d specs, %d runs" % (len(specs), tot["runs"]))
     # (b)
     bound = 1 if ctx.quick else 2
-    ord_exec = 0
+    ord_exec = {"rebind": 0, "ast": 0}
     maxpts = 0
-    for item, r in pool.pmap(order_work, [[(n, t, bound)] for n, t in cps], item_timeout=3600):
+    rewritten = None
+    # the AST-rewritten copy reaches every site the rebound name reaches: in the quick tier only it gets all n! orders
+    full = {"ast": True, "rebind": not ctx.quick}
+    probes = [(n, t, mode, full[mode]) for n, t in cps for mode in ("rebind", "ast")]
+    # the probes are cheap: in this process (every message through the pool costs a scheduling round trip)
+    big, small = [], []
+    for (n, t, mode, ff) in probes:
+        r = order_probe((n, t, mode, ff))
+        rewritten = r["rewritten"] or rewritten
+        nshards = max(1, min(pool.NPROC, r["alts"] // 40))
+        (big if nshards > 1 else small).extend((n, t, bound, mode, s, nshards, ff) for s in range(nshards))
+    blocks = [[j] for j in big] + [small[i:i + 12] for i in range(0, len(small), 12)]
+    for item, r in pool.pmap(order_work, blocks, item_timeout=3600):
         if isinstance(r, (pool.WorkerError, pool.Crash)):
             raise InfraError(repr(r))
-        ord_exec += r["executions"]
+        ord_exec[r["mode"]] += r["executions"]
         maxpts = max(maxpts, r["choice_points"])
         for kind, info in r["bad"]:
-            ctx.violation({"kind": kind}, {"part": "order", "item": [item[0], item[1], item[2]], "info": info})
-    ctx.count("set_order_executions", ord_exec)
+            ctx.violation({"kind": kind, "mode": r["mode"]}, {"part": "order", "item": list(item), "info": info})
+    for mode, n in ord_exec.items():
+        ctx.count("set_order_executions[%s]" % mode, n)
+    if not rewritten or not sum(v["name"] for v in rewritten.values()):
+        raise InfraError("the AST pass rewrote nothing: %r" % (rewritten,))
+    ctx.log("(b) done: %r" % (ord_exec,))
     # (c)
     seeds = [0, 1, 2, 3, 4, 5, 6, "random"] if ctx.quick else list(range(31)) + ["random"]
     jobs = [(s, i) for i, s in enumerate(seeds)]
     res = {}
-    for item, r in pool.pmap(seed_work, [[j] for j in jobs], item_timeout=3600):
-        if isinstance(r, (pool.WorkerError, pool.Crash)):
-            raise InfraError(repr(r))
+    lres = []
+    for item, r in _pool(proc_work, [("seed", j) for j in jobs] + [("locale", e) for e in sorted(LOCALE_ENVS)]):
+        if item[0] == "locale":
+            lres.append(r)
+            continue
         for line in r["lines"]:
+            if line.startswith("T|"):
+                ctx.count("ffi_operations_between_generations", int(line[2:]))
             if not line.startswith("R|"):
                 continue
             _, name, py, digest, ndistinct = line.split("|")
@@ -611,38 +1097,83 @@ def run(ctx):
             ctx.violation({"kind": "differs-across-processes"},
                           {"part": "seed", "cdef": name, "py": py, "digests": {k: v for k, v in dg.items()}})
     ctx.count("seed_processes", len(jobs))
-    total = full_runs + crash_runs + ord_exec + len(jobs) * len(cps) * 2
+    lres.sort(key=lambda r: r["env"])
+    nloc = sum(len(r["rows"]) for r in lres)
+    ctx.count("locale_processes", len(lres))
+    ctx.count("locale_generations", nloc)
+    for sig, info in judge_locale(lres):
+        ctx.violation(sig, {"part": "locale", "info": info})
+    ctx.log("(c) done")
+    nord = sum(ord_exec.values())
+    total = tot["runs"] + nord + len(jobs) * len(cps) * 2 + nloc
     cov = {
         "evaluations": total,
-        "distinct_nontrivial": crash_runs,
-        "rule": "evaluations = complete runs + crash runs of the write path + generations under a forced set order + "
-                "(seed, cdef, target) generations in fresh processes; distinct_nontrivial = distinct (cdef, target kind, "
-                "initial state, crashed I/O step, torn length) crash runs, each inspected for old-or-new content",
+        "distinct_nontrivial": tot["crash"] + tot["fallback"],
+        "rule": "evaluations = complete, crash and recovery runs of the write path + generations under a forced set "
+                "order + (seed, cdef, target) generations in fresh processes + (locale, input, phase) generations; "
+                "distinct_nontrivial = distinct (spec = family/cdef/target kind/C source/entry point/module name, "
+                "initial state, crashed I/O step, torn length, rename answer) crash runs, each inspected for "
+                "old-or-new content and followed by a recovery run; families: corpus (every cdef, std C source, direct "
+                "call), preamble (8 C-source strings x 3 cdefs), entry (recompile/compile/emit x 3 module names x 3 cdefs)",
+        "write_specs": len(specs),
+        "complete_and_recovery_runs": tot["runs"] - tot["crash"] - tot["fallback"],
+        "recovery_runs": tot["recovery"],
+        "rename_fallback_crash_points": tot["fallback"],
         "io_step_kinds": sorted(steps_all),
-        "initial_states": INITIAL,
-        "set_order": {"executions": ord_exec, "max_choice_points_in_one_generation": maxpts, "deviation_bound": bound},
+        "newline_argument_of_the_comparing_read": sorted(newline_args),
+        "longest_generated_text_bytes": longest,
+        "initial_states": INITIAL + [NODIR],
+        "c_sources": sorted(PREAMBLES),
+        "set_order": {"executions": ord_exec, "max_choice_points_in_one_generation": maxpts, "deviation_bound": bound,
+                      "first_deviation_all_orders": full,
+                      "reduced_family": "all orders for sets of <= %d elements, else identity/reversal/"
+                                                 "rotations/adjacent transpositions" % _c23perm.FULL_LIMIT,
+                      "ast_rewritten_nodes": rewritten},
         "hash_seeds": [str(s) for s in seeds],
-        "rename_failure_fallback_steps (information)": fallback,
+        "locale_settings": sorted(LOCALE_ENVS),
+        "rename_failure_fallback_steps": fallback,
         "exhaustive": True,
     }
     return ctx.finish(cov, ["crash = process death between/inside system calls; no power-loss reordering",
-                            "the injected open/os layer performs the real operations on a scratch directory"])
+                            "the injected open/os layer performs the real operations on a scratch directory",
+                            "part (a) expects the bytes that open(..., 'w') of the checking process writes "
+                            "(locale.getpreferredencoding, os.linesep)"])
 
 
 def replay(detail):
     part = detail.get("part")
     if part == "crash":
-        name, text, py = detail["item"]
-        r = crash_work((name, text, py))
-        for b in r["bad"]:
-            print("VIOLATED", b)
-        return 1 if r["bad"] else 0
+        if "spec" in detail:
+            spec = detail["spec"]
+        else:                              # replay files written before the spec form
+            name, text, py = detail["item"]
+            spec = _spec("corpus", name, text, py)
+        want = (detail.get("kind"), (detail.get("info") or {}).get("initial"), (detail.get("info") or {}).get("config"))
+        only = [want[1]] if want[1] else None
+        r = crash_work(spec, only_states=only)
+        hit = 0
+        for kind, info in r.get("bad", []):
+            same = (kind, info.get("initial"), info.get("config")) == want
+            print("VIOLATED" if same else "also", (kind, info))
+            hit += same
+        if "excluded" in r:
+            print("excluded:", r["excluded"])
+        return 1 if hit else 0
     if part == "order":
-        name, text, bound = detail["item"]
-        r = order_work((name, text, bound))
+        item = list(detail["item"])
+        if len(item) == 3:
+            item = item + ["rebind", 0, 1, True]
+        name, text, bound, mode = item[:4]
+        r = order_work((name, text, bound, mode, 0, 1, item[6] if len(item) > 6 else True))
         for b in r["bad"]:
             print("VIOLATED", b)
         return 1 if r["bad"] else 0
+    if part == "locale":
+        lres = [locale_work(e) for e in sorted(LOCALE_ENVS)]
+        found = judge_locale(lres)
+        for sig, info in found:
+            print("VIOLATED", sig, info)
+        return 1 if found else 0
     print("seed part: re-run the check (needs several processes)")
     print(detail)
     return 1
